@@ -4,7 +4,8 @@
      1. bridge lemmas ([run_all] vs [accepted]; the records of C01 project to the views of C05),
      2. the calls a typed tree issues are in the C01 argument domain ([tree_calls_good]),
      3. C05_full : write then parse = normalise, no hypothesis about the reader left,
-     4. C06_full : parse, re-serialise: identical bytes and a fixed point ([pre_ok_run] derived from the codec laws). *)
+     4. C06_full : parse, re-serialise: identical bytes and a fixed point ([pre_ok_run] derived from the codec laws).
+   (5. C06 for the streaming writer's own files, C06_canonical, is in DomComposeCanon.v.) *)
 From Coq Require Import List Arith NArith ZArith Bool Strings.Byte Lia.
 From Coq Require Strings.String.
 From DX Require Import Bytes Res Codec Text Sections Header Stream Json Reader Writer Dom.
@@ -254,6 +255,14 @@ Proof.
   apply WC.in_strset_true in Ev. destruct Ev as (x & Hx & ->).
   assert (Hxc : In x WC.choice_values) by (unfold WC.choice_values; do 4 (apply in_or_app; right); exact Hx).
   destruct (choice_exact x Hxc) as [Hxe _]. exact Hxe.
+Qed.
+
+Lemma views_of_records_main : forall enc0 ver s0 cs,
+  writer_init enc0 ver = (s0, Ok tt) -> enc_ok enc0 -> Forall call_good cs -> accepted s0 cs ->
+  map rec_view (main_record enc0 ver :: expected_records s0 1 cs) = main_view enc0 ver :: expected_views s0 AtMain cs.
+Proof.
+  intros enc0 ver s0 cs Hi He Hg Ha. cbn [map]. rewrite (main_view_of_record _ _ _ Hi He). f_equal.
+  apply views_of_records; [eapply lvl_ok_init; exact Hi | exact Hg | exact Ha].
 Qed.
 
 (* the hypothesis of DomSpecFacts.C05_dom_round_trip, from C01 *)
@@ -607,6 +616,55 @@ Theorem tree_calls_good : forall t cs s, tree_encs_ok t = true -> tree_indents_o
   tree_calls t = Ok cs -> accepted s cs -> Forall call_good cs.
 Proof.
   intros t cs s He Hi H Ha. eapply calls_good_of_accepted; [|exact Ha]. eapply tree_calls_pre; eauto.
+Qed.
+
+(* the same without running the writer, when the declared line_endings are legal too (decidable on the tree; with
+   [accepted] this follows, see [tree_calls_good]) *)
+Definition le_okb (v : wv) : bool :=
+  match v with
+  | WNone => true
+  | WStr t => existsb (fun x => teq t (ascii_text x)) GenText.line_endings_values
+  | _ => false
+  end.
+
+Lemma le_okb_ok : forall v, le_okb v = true -> le_arg v.
+Proof.
+  intros v H. destruct v; try discriminate H; [constructor|]. cbn [le_okb] in H.
+  apply existsb_exists in H. destruct H as (x & Hx & E). apply teq_eq in E. subst t. constructor. exact Hx.
+Qed.
+
+Definition psec_le (p : psec) : wv := kw (p_opts p) "line_endings".
+Definition dsec_le (d : dsec) : wv := kw (remap "diff" (x_opts d)) "line_endings".
+Definition tree_les_ok (t : dtree) : bool :=
+  le_okb (psec_le (d_pre t)) &&
+  forallb (fun ch => le_okb (psec_le (c_pre ch)) && forallb (fun f => le_okb (dsec_le (f_diff f))) (c_files ch)) (d_changes t).
+
+Definition call_le_ok (c : call) : Prop :=
+  match c with WritePreamble _ _ _ le _ | WriteDiff _ _ _ le => le_arg le | _ => True end.
+
+Lemma pre_call_le : forall p c, call_preamble p = Ok (Some c) -> le_okb (psec_le p) = true -> call_le_ok c.
+Proof. intros p c H Hl. destruct (pre_call_shape p c H) as (t & _ & ->). apply le_okb_ok. exact Hl. Qed.
+Lemma meta_call_le : forall m c, call_meta m = Ok (Some c) -> call_le_ok c.
+Proof. intros m c H. rewrite (meta_call_shape m c H). exact I. Qed.
+Lemma diff_call_le : forall d c, call_diff d = Ok (Some c) -> le_okb (dsec_le d) = true -> call_le_ok c.
+Proof. intros d c H Hl. destruct (diff_call_shape d c H) as (b & _ & ->). apply le_okb_ok. exact Hl. Qed.
+
+Lemma tree_calls_le : forall t cs, tree_les_ok t = true -> tree_calls t = Ok cs -> Forall call_le_ok cs.
+Proof.
+  intros t cs Hl H. apply Forall_forall. intros c Hin. pose proof (tree_calls_in t cs H c Hin) as Hc.
+  unfold tree_les_ok in Hl. apply andb_true_iff in Hl. destruct Hl as [L1 L2]. rewrite forallb_forall in L2.
+  destruct Hc as [c Hp|c Hm|ch c Hch Hcc]; [eapply pre_call_le; eauto | eapply meta_call_le; eauto|].
+  specialize (L2 ch Hch). apply andb_true_iff in L2. destruct L2 as [L2 L3]. rewrite forallb_forall in L3.
+  destruct Hcc as [|c Hp|c Hm|f c Hf Hfc]; [exact I | eapply pre_call_le; eauto | eapply meta_call_le; eauto|].
+  destruct Hfc as [|c Hm|c Hd]; [exact I | eapply meta_call_le; eauto | eapply diff_call_le; eauto].
+Qed.
+
+Theorem tree_calls_good_static : forall t cs, tree_encs_ok t = true -> tree_indents_ok t = true ->
+  tree_les_ok t = true -> tree_calls t = Ok cs -> Forall call_good cs.
+Proof.
+  intros t cs He Hi Hl H. pose proof (tree_calls_pre t cs He Hi H) as Hp. pose proof (tree_calls_le t cs Hl H) as Hle.
+  rewrite Forall_forall in *. intros c Hin. destruct (Hp c Hin) as [Henc Hr]. specialize (Hle c Hin).
+  destruct c; cbn [call_good call_enc call_le_ok] in *; tauto.
 Qed.
 
 Theorem tree_calls_aligned : forall t cs, tree_encs_aligned t = true -> tree_calls t = Ok cs ->
